@@ -2008,6 +2008,17 @@ func (ts *TokenStore) revokeInternal(ctx context.Context, saltedID string, skipO
 		return nil
 	}
 
+	// Until the deferred cleanup further down is installed, a failing early
+	// return must not leave this token marked as "deletion in progress": every
+	// later revocation would short-circuit above and report success without
+	// having revoked anything.
+	cleanupInstalled := false
+	defer func() {
+		if !cleanupInstalled && ret != nil {
+			ts.tokensPendingDeletion.Store(saltedID, false)
+		}
+	}()
+
 	// The map check above should protect use from any concurrent revocations, so
 	// we do another lookup here to make sure we have the right state
 	entry, err := ts.lookupInternal(ctx, saltedID, true, true)
@@ -2039,6 +2050,7 @@ func (ts *TokenStore) revokeInternal(ctx context.Context, saltedID string, skipO
 		return namespace.ErrNoNamespace
 	}
 
+	cleanupInstalled = true
 	defer func() {
 		// If we succeeded in all other revocation operations after this defer and
 		// before we return, we can remove the token store entry
